@@ -251,6 +251,14 @@ func run(prop *Prop, id, tier string, seed int64, replay, work string, start tim
 		outRoot = filepath.Join(verifRoot, "work", "scratch-out")
 	}
 	os.MkdirAll(filepath.Join(outRoot, "replay", id), 0o755)
+	if len(fresh) > 0 {
+		var sb strings.Builder
+		for _, v := range fresh {
+			sb.WriteString(v.Unit + "\t" + v.Key + "\n")
+		}
+		os.MkdirAll(filepath.Join(verifRoot, "work"), 0o755)
+		os.WriteFile(filepath.Join(verifRoot, "work", "last-violation-keys-"+id+".txt"), []byte(sb.String()), 0o644)
+	}
 	for i, v := range fresh {
 		if i >= 25 {
 			fmt.Printf("... %d further violations not listed\n", len(fresh)-i)
